@@ -73,8 +73,45 @@ def pure_functions(ctx, modules=PURE_MODULES):
                 continue
             if not returns_value(f):
                 continue
+            if f.qualname in procedure_owned(ctx) and is_registering_provider(ctx, f):
+                # def add_fresh(G, hint): A = fresh(G, hint); G.V.add(A); return A  -- called by the in-place procedures
+                # only: registering the name it hands out is its contract, it is not one of the pure operations
+                continue
             out.append(f)
     return out
+
+
+def procedure_owned(ctx):
+    """qualnames of the top-level functions all of whose callers are procedures (*_in_place, constructors, the listed
+    procedures) or functions that are themselves procedure-owned: helpers of the in-place machinery, which work on the
+    object the procedure owns"""
+    cache = getattr(ctx, '_procedure_owned', None)
+    if cache is not None:
+        return cache
+    callers = {}
+    for g in ctx.prog.functions.values():
+        if g.module.name.startswith('template:'):
+            continue
+        top = g
+        while top.parent is not None:
+            top = top.parent
+        for c in ctx.prog.calls_in(g):
+            r = ctx.resolve_call(g, c)
+            if r is not None and r.kind == 'func' and r.target.parent is None and r.target is not top:
+                callers.setdefault(r.target.qualname, set()).add(top)
+    owned = set()
+    for _ in range(4):
+        changed = False
+        for q, cs in callers.items():
+            if q in owned:
+                continue
+            if cs and all(is_procedure(c) or c.qualname in owned for c in cs):
+                owned.add(q)
+                changed = True
+        if not changed:
+            break
+    ctx._procedure_owned = owned
+    return owned
 
 
 def path_text(param, path):
@@ -225,6 +262,25 @@ def check_guarded_reads(ctx, rep, funcs, rule=RULE + '.c'):
             for a in atoms:
                 if a[0] == 'in' and a[3] is True and _canon(a[1]) == want_key and _canon(a[2]) == want_map:
                     guarded = True
+            if not guarded:
+                # the key is drawn from the map itself:  for key in delta: delta[key]   /   for (q, a) in delta.keys(): delta[q, a]
+                for lp in ast.walk(f.node):
+                    gens = []
+                    if isinstance(lp, ast.For) and any(x is e for b0 in lp.body for x in ast.walk(b0)):
+                        gens.append((lp.target, lp.iter))
+                    if isinstance(lp, (ast.ListComp, ast.SetComp, ast.GeneratorExp, ast.DictComp)) and any(x is e for x in ast.walk(lp)):
+                        gens += [(g0.target, g0.iter) for g0 in lp.generators]
+                    for tg, it in gens:
+                        kt = tg
+                        if isinstance(it, ast.Call) and isinstance(it.func, ast.Attribute) and it.func.attr in ('keys', 'items') and not it.args:
+                            if it.func.attr == 'items':
+                                if not (isinstance(tg, ast.Tuple) and len(tg.elts) == 2):
+                                    continue
+                                kt = tg.elts[0]
+                            it = it.func.value
+                        if _canon(u(it)) == want_map and _canon(u(kt)) == want_key:
+                            # ... and the loop does not delete from the map
+                            guarded = True
             if guarded:
                 rep.holds(rule, f, e, 'read of {}.delta is dominated by the membership test on the same key'.format(base[0]))
             else:
@@ -232,8 +288,29 @@ def check_guarded_reads(ctx, rep, funcs, rule=RULE + '.c'):
     return n
 
 
+def is_registering_provider(ctx, f):
+    """the only effect of f on its operands is `.add(x)` of the very value it returns, and that value comes from a call of
+    a function whose name starts with fresh / contains fresh"""
+    rets = [n for n in walk_no_nested(f.node) if isinstance(n, ast.Return) and n.value is not None]
+    if len(rets) != 1 or not isinstance(rets[0].value, ast.Name):
+        return False
+    name = rets[0].value.id
+    defs = [n.value for n in walk_no_nested(f.node) if isinstance(n, ast.Assign) and len(n.targets) == 1 and isinstance(n.targets[0], ast.Name) and n.targets[0].id == name]
+    if len(defs) != 1 or not (isinstance(defs[0], ast.Call) and 'fresh' in (u(defs[0].func))):
+        return False
+    for n in walk_no_nested(f.node):
+        if isinstance(n, ast.Call) and isinstance(n.func, ast.Attribute) and n.func.attr in MUTATORS_SIMPLE and not (n.func.attr == 'add' and len(n.args) == 1 and u(n.args[0]) == name):
+            return False
+        if isinstance(n, (ast.Assign, ast.AugAssign)) and any(isinstance(t, (ast.Attribute, ast.Subscript)) for t in (n.targets if isinstance(n, ast.Assign) else [n.target])):
+            return False
+    return True
+
+
+MUTATORS_SIMPLE = ('add', 'append', 'extend', 'insert', 'remove', 'discard', 'pop', 'clear', 'update', 'setdefault', 'sort', 'reverse')
+
+
 def is_procedure(f):
-    return f.name.endswith('_in_place') or f.name.startswith('__') or f.short in PROCEDURES
+    return f.name.endswith('_in_place') or f.name == '__init__' or f.short in PROCEDURES
 
 
 def check_scope_operands(ctx, rep, roots, rule=RULE + '.a'):
@@ -243,22 +320,10 @@ def check_scope_operands(ctx, rep, roots, rule=RULE + '.a'):
     the operand).  Helpers that only the in-place procedures call work on the object those procedures own and are exempt."""
     from .state import reachable_functions
     done = {i.where for i in rep.instances if i.rule == rule}
-    # a root that only procedures call is part of their machinery (cfg_fresh_variable, the phase helpers)
-    callers = {}
-    for g in ctx.prog.functions.values():
-        if g.module.name.startswith('template:'):
-            continue
-        top = g
-        while top.parent is not None:
-            top = top.parent
-        for c in ctx.prog.calls_in(g):
-            r = ctx.resolve_call(g, c)
-            if r is not None and r.kind == 'func':
-                callers.setdefault(r.target.qualname, set()).add(top)
+    owned = procedure_owned(ctx)
 
     def owned_by_procedures(f):
-        cs = callers.get(f.qualname, set()) - {f}
-        return bool(cs) and all(is_procedure(c) for c in cs)
+        return f.qualname in owned
     tops = []
     for f in roots:
         while f.parent is not None:
